@@ -418,3 +418,19 @@ pub assume_specification [str::to_uppercase](s: &str) -> (r: String) ensures r@ 
 pub assume_specification<'a> [str::trim](s: &'a str) -> (r: &'a str) ensures r@ == trim_spec(s@);
 pub assume_specification [Value::str_from](v: &Value) -> (r: String) ensures r@ == str_from_spec(*v);
 } // verus!
+
+::vstd::prelude::verus! {
+// ---- integer literal parsing support (parse_dec_or_hex)
+pub assume_specification [<VInt as core::str::FromStr>::from_str](s: &str) -> (r: Result<VInt, ()>)
+    ensures r == (match dec_int_spec(s@) { Some(i) => Ok::<VInt, ()>(i), None => Err(()) });
+pub uninterp spec fn strip_prefix_spec<'a, P>(s: &'a str, p: P) -> Option<&'a str>;
+#[verifier::allow(undeclared_external_trait)]
+pub assume_specification<'a, P: core::str::pattern::Pattern> [str::strip_prefix::<P>](s: &'a str, p: P) -> (r: Option<&'a str>)
+    ensures r == strip_prefix_spec(s, p);
+#[verifier::external_body]
+pub broadcast proof fn axiom_strip_prefix_str<'a, 'b>(s: &'a str, p: &'b str)
+    ensures
+        (#[trigger] strip_prefix_spec::<&'b str>(s, p) is Some) == (s@.len() >= p@.len() && s@.take(p@.len() as int) == p@),
+        strip_prefix_spec::<&'b str>(s, p) matches Some(t) ==> t@ == s@.skip(p@.len() as int),
+{}
+} // verus!
